@@ -122,6 +122,20 @@ fn main() {
         roundtrip_wellformed(rep, &bytes, &format!("generated with a {size}-byte payload at {at}"));
         if size > 65_536 && rep.get("wellformed.byte_exact") > before { rep.count("large.over_65536.byte_exact"); }
     });
+    // boundary counts: one u2- (or u1-) counted table grown to 255 / 256 / 32767 / 32768 / 65535 entries; byte identity decides
+    // that count and attribute_length fields are written in full width
+    let nbig = ctx.tier.pick(200, 6_000);
+    run_cases(&ctx, &replay, &mut rep, "big-table", nbig, |rng, rep, _| {
+        let small = gen::GenCfg { max_fields: 2, max_methods: 2, max_insns: 10, two_slot_constants: false, major: Some(65), ..gen::GenCfg::default() };
+        let mut m = gen::gen_class(rng, &small);
+        let (what, n) = gen::add_big_table(rng, &mut m);
+        let mut layout = if rng.bool() { emit::Layout::canonical() } else { emit::Layout::random(rng.next_u64()) }; layout.two_slot_fillers = false;
+        let Ok(bytes) = emit::emit(&m, &layout) else { rep.count("emit.skipped"); return; };
+        rep.count(&format!("big.{what}")); if n >= 32_767 { rep.count(&format!("big.over_32766.{what}")); }
+        rep.seen("big_table_sizes", &n.to_string());
+        rep.nontrivial(common::rng::fnv_str(&format!("big {what} {n}")));
+        roundtrip_wellformed(rep, &bytes, &format!("generated with {n} entries in {what}"));
+    });
     let corpus = cf::corpus::load(&ctx.verif_dir);
     run_cases(&ctx, &replay, &mut rep, "corpus", corpus.len() as u64, |_, rep, i| {
         let (name, bytes) = &corpus[i as usize];
@@ -160,6 +174,7 @@ fn main() {
         meta.oblige("classes with long/double pool entries were tried", rep.get("wellformed.pool_with_long_double") > 100);
         meta.oblige("at least 25 attribute kinds seen in inputs", rep.seen_n("attribute_kinds") >= 25);
         meta.oblige("raw values obtained", rep.get("raw.values") > 100);
+        meta.oblige("tables with 32767 or more entries were read: interfaces, inner classes, NestMembers, PermittedSubclasses, Exceptions, line numbers, local variables, exception table", ["interfaces", "inner_classes", "nest_members", "permitted_subclasses", "method.exceptions", "code.line_numbers", "code.lvt", "code.exception_table"].iter().all(|k| rep.get(&format!("big.over_32766.{k}")) > 0));
         meta.oblige("inputs delivered through a short-read reader as well as through a slice", rep.get("reader.short_reads") > 100 && rep.get("reader.cursor") > 100);
         meta.oblige("attribute payloads larger than 65536 bytes were read (at every level: class, field, method, Code, SourceDebugExtension)", rep.get("large.over_65536") >= 30 && ["large.class.unknown", "large.class.source_debug_extension", "large.field.unknown", "large.method.unknown", "large.code.unknown"].iter().all(|k| rep.get(k) > 0));
     }
